@@ -58,7 +58,7 @@ MANIFEST = {
     "technique": "Lean 4 invariant proof over an executable file-system model; model tied by regenerated tables and a differential rig",
     "design_ref": "5/C15",
 }
-MODULES = ["PrimaiteModel.Props.C15", "PrimaiteModel.Props.C15Api", "PrimaiteModel.Props.C15Node", "PrimaiteModel.Props.C15Verbs",
+MODULES = ["PrimaiteModel.Props.C15Keeps", "PrimaiteModel.Props.C15Loader", "PrimaiteModel.Props.C15", "PrimaiteModel.Props.C15Api", "PrimaiteModel.Props.C15Node", "PrimaiteModel.Props.C15Verbs",
            "PrimaiteModel.Props.C15Actions", "PrimaiteModel.Props.C15Inventory", "PrimaiteModel.Props.C15Disjoint",
            "PrimaiteModel.Props.C15Health"]
 EXE = "drv_c15"
@@ -77,10 +77,17 @@ def _impl_only(case: dict):
     return rig.run_impl(case)
 
 
+def _align(ci: List[str], cm: List[str]) -> List[str]:
+    """A configuration that is refused leaves no node: the implementation's trace ends at its `raised`; the model's answers to the
+    operations behind it are not compared (its answer to the `load` itself is)."""
+    return cm[:len(ci)] if (ci and ci[-1] == "raised" and len(cm) > len(ci)) else cm
+
+
 def _diff_case(case: dict):
     impl, verdicts, lines = _run_case(case)
     model = run_driver(EXE, lines)
     ci, cm = rig.canon(impl), rig.canon(model)
+    cm = _align(ci, cm)
     i = next((j for j, (a, b) in enumerate(zip(ci, cm)) if a != b), -1)
     bad_oracle = next((j for j, v in enumerate(verdicts) if v), -1)
     return (i == -1 and bad_oracle == -1), ci, cm, i, lines, verdicts, bad_oracle
@@ -109,6 +116,8 @@ def replay(rec: dict) -> bool:
 def _report(ctx: Ctx, name: str, case: dict):
     """A case on which the implementation disagrees with the proved model or fails C15's own oracle: shrink and report."""
     def fails(ops, case=case):
+        if case["surface"] == "cfg" and (not ops or ops[0][0] != "load" or any(o[0] == "load" for o in ops[1:])):
+            return False  # a configured host starts with its `load`
         ok, *_ = _diff_case(dict(case, ops=ops))
         return not ok
     small = dict(case, ops=shrink_ops(case["ops"], fails, budget=120))
@@ -181,6 +190,10 @@ def run(ctx: Ctx):
         rng5 = ctx.rng.fork("fs-health")
         for k in range(ctx.scale(800, 12000)):
             yield f"health:{k}", rig.gen_health_case(rng5, max_ops=ctx.scale(24, 40))
+        # the configured initial state: HostNode.__init__ over generated folder lists, then setup_for_episode
+        rng6 = ctx.rng.fork("fs-cfg")
+        for k in range(ctx.scale(500, 6000)):
+            yield f"cfg:{k}", rig.gen_cfg_case(rng6)
         # node level: a real computer in a small network, power requests interleaved with file operations
         depth = ctx.scale(3, 4)
         for c, cfg in enumerate(rig.node_configs()):
@@ -224,6 +237,7 @@ def run(ctx: Ctx):
             ctx.cov["traces_validated_against_impl"] += 1
             state["total"] += 1
             ci, cm = rig.canon(impl), rig.canon(model)
+            cm = _align(ci, cm)
             statuses = [m.split(" | ")[0] for m in cm[H:]]
             has_deleted = any(":1:" in m or ":1)" in m or ":1," in m for m in cm[H:])
             ctx.case(case, has_deleted and any(s in ("failure", "unreachable") for s in statuses))
